@@ -211,3 +211,159 @@ MUTANTS += [
     {"id": "C01-benign-images-reserve", "prop": "C01", "benign": True,
      "edits": [(R_, "        self.images.clear();\n        for mark in self.marks.iter_mut() {", "        self.images.clear();\n        self.images.reserve(4);\n        for mark in self.marks.iter_mut() {")]},
 ]
+
+# ---- R7: the blank-run scan written as an iterator chain / with the cell comparison in a closure / in an extracted helper ------------------
+_SCAN_LOOP = ("                    let mut repeats = 1;\n"
+              "                    for col in pos.col + 1..self.front.width() {\n"
+              "                        let pos = Position::new(pos.row, col);\n"
+              "                        let Some(next) = self.front.get(pos) else {\n"
+              "                            break;\n"
+              "                        };\n"
+              "                        let next_mark = self.marks.get(pos).copied().unwrap_or_default();\n"
+              "                        if next == new && next_mark != CellMark::Ignored {\n"
+              "                            repeats += 1;\n"
+              "                        } else {\n"
+              "                            break;\n"
+              "                        }\n"
+              "                    }\n")
+
+
+def _scan_chain(tail):
+    return ("                    let following = (pos.col + 1..self.front.width())\n"
+            "                        .map(|col| Position::new(pos.row, col))\n" + tail +
+            "                    let repeats = following + 1;\n")
+
+
+MUTANTS += [
+    {"id": "C01-benign-scan-take-while-count", "prop": "C01", "benign": True,
+     "edits": [(R_, _SCAN_LOOP, _scan_chain(
+         "                        .take_while(|&next| {\n"
+         "                            self.front.get(next) == Some(new)\n"
+         "                                && self.marks.get(next) != Some(&CellMark::Ignored)\n"
+         "                        })\n"
+         "                        .count();\n"))]},
+    {"id": "C01-benign-scan-take-while-mark-first", "prop": "C01", "benign": True,
+     "edits": [(R_, _SCAN_LOOP, _scan_chain(
+         "                        .take_while(|&next| {\n"
+         "                            let mark = self.marks.get(next).copied().unwrap_or_default();\n"
+         "                            !matches!(mark, CellMark::Ignored) && self.front.get(next) == Some(new)\n"
+         "                        })\n"
+         "                        .count();\n"))]},
+    {"id": "C01-benign-scan-position-of-first-stop", "prop": "C01", "benign": True,
+     "edits": [(R_, _SCAN_LOOP,
+                "                    let rest = self.front.width().saturating_sub(pos.col + 1);\n"
+                "                    let following = (pos.col + 1..self.front.width())\n"
+                "                        .map(|col| Position::new(pos.row, col))\n"
+                "                        .position(|next| {\n"
+                "                            self.front.get(next) != Some(new)\n"
+                "                                || self.marks.get(next) == Some(&CellMark::Ignored)\n"
+                "                        })\n"
+                "                        .unwrap_or(rest);\n"
+                "                    let repeats = following + 1;\n")]},
+    {"id": "C01-benign-scan-loop-option-eq", "prop": "C01", "benign": True,
+     "edits": [(R_, _SCAN_LOOP,
+                "                    let mut repeats = 1;\n"
+                "                    for col in pos.col + 1..self.front.width() {\n"
+                "                        let pos = Position::new(pos.row, col);\n"
+                "                        if self.front.get(pos) != Some(new) || self.marks.get(pos) == Some(&CellMark::Ignored) {\n"
+                "                            break;\n"
+                "                        }\n"
+                "                        repeats += 1;\n"
+                "                    }\n")]},
+    {"id": "C01-benign-scan-try-fold-counter", "prop": "C01", "benign": True,
+     "edits": [(R_, _SCAN_LOOP,
+                "                    let scan = (pos.col + 1..self.front.width()).try_fold(1usize, |run, col| {\n"
+                "                        let pos = Position::new(pos.row, col);\n"
+                "                        match (self.front.get(pos), self.marks.get(pos)) {\n"
+                "                            (Some(next), mark) if next == new && mark != Some(&CellMark::Ignored) => Ok(run + 1),\n"
+                "                            _ => Err(run),\n"
+                "                        }\n"
+                "                    });\n"
+                "                    let repeats = match scan {\n"
+                "                        Ok(run) | Err(run) => run,\n"
+                "                    };\n")]},
+    # breaking counterparts
+    {"id": "C01-scan-take-while-without-mark", "prop": "C01", "expect": "R7-RUN",
+     "edits": [(R_, _SCAN_LOOP, _scan_chain(
+         "                        .take_while(|&next| self.front.get(next) == Some(new))\n"
+         "                        .count();\n"))]},
+    {"id": "C01-scan-take-while-not-damaged", "prop": "C01", "expect": "R7-RUN",
+     "edits": [(R_, _SCAN_LOOP, _scan_chain(
+         "                        .take_while(|&next| {\n"
+         "                            self.front.get(next) == Some(new)\n"
+         "                                && self.marks.get(next) != Some(&CellMark::Damaged)\n"
+         "                        })\n"
+         "                        .count();\n"))]},
+    {"id": "C01-scan-take-while-or", "prop": "C01", "expect": "R7-RUN",
+     "edits": [(R_, _SCAN_LOOP, _scan_chain(
+         "                        .take_while(|&next| {\n"
+         "                            self.front.get(next) == Some(new)\n"
+         "                                || self.marks.get(next) != Some(&CellMark::Ignored)\n"
+         "                        })\n"
+         "                        .count();\n"))]},
+    {"id": "C01-scan-position-stop-only-on-different", "prop": "C01", "expect": "R7-RUN",
+     "edits": [(R_, _SCAN_LOOP,
+                "                    let rest = self.front.width().saturating_sub(pos.col + 1);\n"
+                "                    let following = (pos.col + 1..self.front.width())\n"
+                "                        .map(|col| Position::new(pos.row, col))\n"
+                "                        .position(|next| {\n"
+                "                            self.front.get(next) != Some(new)\n"
+                "                                && self.marks.get(next) == Some(&CellMark::Ignored)\n"
+                "                        })\n"
+                "                        .unwrap_or(rest);\n"
+                "                    let repeats = following + 1;\n")]},
+    {"id": "C01-scan-try-fold-counter-ignored-counted", "prop": "C01", "expect": "R7-RUN",
+     "edits": [(R_, _SCAN_LOOP,
+                "                    let scan = (pos.col + 1..self.front.width()).try_fold(1usize, |run, col| {\n"
+                "                        let pos = Position::new(pos.row, col);\n"
+                "                        match (self.front.get(pos), self.marks.get(pos)) {\n"
+                "                            (Some(next), mark) if next == new && mark != Some(&CellMark::Empty) => Ok(run + 1),\n"
+                "                            _ => Err(run),\n"
+                "                        }\n"
+                "                    });\n"
+                "                    let repeats = match scan {\n"
+                "                        Ok(run) | Err(run) => run,\n"
+                "                    };\n")]},
+]
+
+_FRAME_DOC = "    /// Generate frame, that is issue terminal command to reconcile\n    /// back (old) and front (new) buffers.\n"
+
+
+def _scan_helper(body):
+    return ("    /// Number of cells of the blank run that starts at `pos`\n"
+            "    fn blank_run(&self, pos: Position, new: &Cell) -> usize {\n" + body + "    }\n\n" + _FRAME_DOC)
+
+
+MUTANTS += [
+    {"id": "C01-benign-scan-helper-loop", "prop": "C01", "benign": True,
+     "edits": [(R_, _SCAN_LOOP, "                    let repeats = self.blank_run(pos, new);\n"),
+               (R_, _FRAME_DOC, _scan_helper(
+                   "        let mut repeats = 1;\n"
+                   "        for col in pos.col + 1..self.front.width() {\n"
+                   "            let pos = Position::new(pos.row, col);\n"
+                   "            let Some(next) = self.front.get(pos) else {\n"
+                   "                break;\n"
+                   "            };\n"
+                   "            let next_mark = self.marks.get(pos).copied().unwrap_or_default();\n"
+                   "            if next == new && next_mark != CellMark::Ignored {\n"
+                   "                repeats += 1;\n"
+                   "            } else {\n"
+                   "                break;\n"
+                   "            }\n"
+                   "        }\n"
+                   "        repeats\n"))]},
+    {"id": "C01-benign-scan-helper-take-while", "prop": "C01", "benign": True,
+     "edits": [(R_, _SCAN_LOOP, "                    let repeats = self.blank_run(pos, new);\n"),
+               (R_, _FRAME_DOC, _scan_helper(
+                   "        1 + (pos.col + 1..self.front.width())\n"
+                   "            .map(|col| Position::new(pos.row, col))\n"
+                   "            .take_while(|&next| self.front.get(next) == Some(new) && self.marks.get(next) != Some(&CellMark::Ignored))\n"
+                   "            .count()\n"))]},
+    {"id": "C01-scan-helper-take-while-without-mark", "prop": "C01", "expect": "R7-RUN",
+     "edits": [(R_, _SCAN_LOOP, "                    let repeats = self.blank_run(pos, new);\n"),
+               (R_, _FRAME_DOC, _scan_helper(
+                   "        1 + (pos.col + 1..self.front.width())\n"
+                   "            .map(|col| Position::new(pos.row, col))\n"
+                   "            .take_while(|&next| self.front.get(next) == Some(new))\n"
+                   "            .count()\n"))]},
+]
